@@ -353,6 +353,29 @@ def final (cfg : Cfg) : S → List Event → S
   | s, [] => s
   | s, e :: es => final cfg (event cfg s e).1 es
 
+/-! ### Reload
+
+`HandlingDataManager.initializeStreams` (start-up and every flows reload) builds a NEW engine — `streams.NewStream` →
+quota loader → `NewQuota` → `NewConcurrentStrategy` for every quota id again — and then lets it serve.  Each new strategy
+has its own (empty) in-memory set, its own status map and its own collector goroutine whose first timer is registered at
+the load instant; the new `ResourceManagement` has an empty `reqIDToQuota`.  The engine that served so far is dropped with
+everything it held (its collectors keep running on sets nobody reads any more).  So what follows a reload is the run of a
+freshly started engine whose start instant is the reload instant. -/
+
+/-- configuration `cfg` loaded at instant `now` -/
+def Cfg.startedAt (cfg : Cfg) (now : Nat) : Cfg := { cfg with t0 := now }
+
+/-- the state after configuration `cfg'` is loaded again while the engine is in state `s` -/
+def reload (cfg' : Cfg) (s : S) : S := S.init (cfg'.startedAt s.now)
+
+/-- A history with reloads: the events up to the first reload, then for every reload the configuration it loads and the
+    events up to the next one.  The result lists, per load, the configuration as started and what was observed. -/
+def runReloads : Cfg → S → List Event → List (Cfg × List Event) → List (Cfg × List Obs)
+  | cfg, s, es, [] => [(cfg, run cfg s es)]
+  | cfg, s, es, (cfg', es') :: rest =>
+    (cfg, run cfg s es) ::
+      runReloads (cfg'.startedAt (final cfg s es).now) (reload cfg' (final cfg s es)) es' rest
+
 /-- Decidable well-formedness: positive GC interval; every concurrent quota's ancestor chain is made of
     distinct concurrent quotas; flow order mentions existing quotas; every concurrent quota sits in a quota tree
     (so it has its `QuotaProcessorDec` in the system flow); fixed-window quotas are roots without internal limits of
